@@ -1307,7 +1307,7 @@ def untouched_verdicts(spec):
             x = attempt(lambda: new_engine(backend).run(P, args=dict(spec["args"]), compile_options=dict(copts)), backend)
             if d is None and fp_diff(fp0, fingerprint(P)):
                 out.append(("untouched:run:" + fp_diff(fp0, fingerprint(P)), "Engine.run(compile_options=%r) changed the user's program" % (copts,)))
-            y = attempt(lambda: new_engine(backend).run(c1, args=dict(spec["args"])), backend)
+            y = attempt(lambda: new_engine(backend).run(c1, args=dict(spec["args"]), shots=1), backend)   # shots handed to compile would otherwise apply
             if x[0] == "ok" and not same_sig(x, y, tol):
                 sig = "compile:run-of-compiled-program-raises:" + y[1] if y[0] == "err" else "compile:run-of-compiled-program-differs"
                 out.append((sig, "running the program -> %s, running its compiled copy -> %s" % (brief(x), brief(y))))
